@@ -29,50 +29,127 @@ HEL = "ampform.helicity"
 BLD = "ampform.dynamics.builder"
 
 
-def check_variable_set(ctx: Check, tree: Tree) -> None:
-    fn = tree.func(f"{HEL}::_generate_kinematic_variable_set")
-    inl = Inliner(fn.node)
-    ret = next(r for r in walk_function(fn.node) if isinstance(r, ast.Return))
-    call = ret.value
-    if not (isinstance(call, ast.Call) and unparse(call.func) == "TwoBodyKinematicVariableSet"):
-        raise AnalysisError("_generate_kinematic_variable_set does not return a TwoBodyKinematicVariableSet(...)")
-    kw = {k.arg: unparse(inl.expr(k.value)).replace(" ", "") for k in call.keywords}
-    decay = "TwoBodyDecay.from_transition(transition,node_id)"
-    gk = "_generate_kinematic_variables(transition,node_id)"
-    want = {
-        "incoming_state_mass": f"{gk}[0]",
-        "helicity_phi": f"{gk}[1]",
-        "helicity_theta": f"{gk}[2]",
-        "outgoing_state_mass1": f"get_invariant_mass_symbol(transition.topology,{decay}.children[0].id)",
-        "outgoing_state_mass2": f"get_invariant_mass_symbol(transition.topology,{decay}.children[1].id)",
-    }
-    problems = [f"{k} = {kw.get(k)} (expected {v})" for k, v in want.items() if kw.get(k) != v]
-    ctx.verdict(not problems, "R-TERM", f"{fn.qual}::roles", tree.loc(call),
-                "variable set: incoming mass / angles from _generate_kinematic_variables, daughter masses = invariant-mass symbols of children[0], children[1] of the same decay", problems or None)
-    g = tree.func(f"{HEL}::_generate_kinematic_variables")
-    ginl = Inliner(g.node)
-    gret = next(r for r in walk_function(g.node) if isinstance(r, ast.Return))
-    elts = [unparse(ginl.expr(e)).replace(" ", "") for e in gret.value.elts] if isinstance(gret.value, ast.Tuple) else []
-    ok = len(elts) == 3 and elts[0] == f"get_invariant_mass_symbol(transition.topology,{decay}.parent.id)" and elts[1] == f"get_helicity_angle_symbols(transition.topology,{decay}.children[0].id)[0]" and elts[2] == f"get_helicity_angle_symbols(transition.topology,{decay}.children[0].id)[1]"
-    ctx.verdict(ok, "R-TERM", f"{g.qual}::roles", tree.loc(gret), "(mass, phi, theta) = (invariant mass of decay.parent, angle symbols of decay.children[0])", None if ok else elts)
-    # angular momentum: first definition is the node's L; every other definition is under `is None` of the same variable
-    rd = RD(fn.node)
-    am_arg = next(k.value for k in call.keywords if k.arg == "angular_momentum")
-    defs = sorted(rd.reaching(am_arg), key=lambda d: d.lineno) if isinstance(am_arg, ast.Name) else []
-    problems = []
-    if not defs:
-        problems.append("angular_momentum is not a local variable")
-    else:
-        first = defs[0]
-        if first.value is None or unparse(inl.expr(first.value)).replace(" ", "") != f"{decay}.interaction.l_magnitude":
-            problems.append(f"first definition is `{unparse(first.value) if first.value is not None else None}`, not decay.interaction.l_magnitude")
-        for d in defs[1:]:
-            from ..loader import ancestors
+VARIABLE_SET = f"{BLD}::TwoBodyKinematicVariableSet"
 
-            guards = [a for a in ancestors(d.node) if isinstance(a, ast.If)]
-            ok_guard = any(f"{am_arg.id} is None" in unparse(a.test) for a in guards)
-            if not ok_guard:
-                problems.append(f"`{unparse(d.node)[:60]}` overrides L although the transition specifies one")
+
+def _record_fields(tree: Tree, cls_qual: str) -> list[str]:
+    return [st.target.id for st in tree.cls(cls_qual).node.body if isinstance(st, ast.AnnAssign) and isinstance(st.target, ast.Name)]
+
+
+def _paths(v, conds: tuple = ()):
+    """(value, path conditions) for every path of a forked evaluation."""
+    from ..terms import PW
+
+    if isinstance(v, PW):
+        for val, cond in v.branches:
+            yield from _paths(val, (*conds, cond))
+    else:
+        yield v, conds
+
+
+def _holds_is_none(k, subject) -> bool:
+    """Does the truth of the condition (given by its canonical key) entail `subject is None`?"""
+    if not (isinstance(k, tuple) and k):
+        return False
+    if k[0] == "tup":
+        return any(_holds_is_none(x, subject) for x in k[1])
+    if k[0] == "rel" and k[1] in {"is", "=="}:
+        return {k[2], k[3]} == {subject, ("opaque", None)}
+    if k[0] == "opaque" and isinstance(k[1], tuple) and k[1]:
+        tag = k[1][0]
+        if tag == "and":
+            return any(_holds_is_none(x, subject) for x in k[1][1])
+        if tag in {"else-of", "not"}:
+            return _fails_is_none(k[1][1], subject)
+    return False
+
+
+def _fails_is_none(k, subject) -> bool:
+    """Does the falsity of the condition entail `subject is None`?"""
+    if not (isinstance(k, tuple) and k):
+        return False
+    if k[0] == "rel" and k[1] in {"is not", "!="}:
+        return {k[2], k[3]} == {subject, ("opaque", None)}
+    if k[0] == "opaque" and isinstance(k[1], tuple) and k[1]:
+        tag = k[1][0]
+        if tag == "or":
+            return any(_fails_is_none(x, subject) for x in k[1][1])
+        if tag in {"else-of", "not"}:
+            return _holds_is_none(k[1][1], subject)
+    return False
+
+
+def check_variable_set(ctx: Check, tree: Tree) -> None:
+    """The variable set of (transition, node) is evaluated as a term over the abstract decay of that node
+    (sa/props/c02.py decay_evaluator): helpers, unpacking of decay.children, keyword arguments and the
+    way the symbols are fetched do not matter - only which symbol ends up in which role, on every path."""
+    from ..terms import vkey
+    from .c02 import NODE_ID, TRANSITION, decay_evaluator, decay_value
+
+    D.reset()
+    te = decay_evaluator(tree)
+    te.fork = True  # every path is judged: the L fallback is a branch
+    fn = tree.func(f"{HEL}::_generate_kinematic_variable_set")
+    fields = _record_fields(tree, VARIABLE_SET)
+    res = te.eval_function(fn, [TRANSITION, NODE_ID])
+    sets = []
+    for val, conds in _paths(res):
+        atom = te.single_atom(val) if isinstance(val, RF) else None
+        info = te.apps.get(atom) if atom is not None else None
+        if info is None or info.cls != "TwoBodyKinematicVariableSet" or tree.resolve(fn.module, ast.Name(id="TwoBodyKinematicVariableSet", ctx=ast.Load()), fn) != VARIABLE_SET:
+            raise AnalysisError("_generate_kinematic_variable_set does not return a TwoBodyKinematicVariableSet(...)")
+        if len(info.args) > len(fields):
+            raise AnalysisError("TwoBodyKinematicVariableSet: more positional arguments than fields")
+        sets.append(({**dict(zip(fields, info.args)), **info.kwargs}, conds))
+    want = {
+        "incoming_state_mass": sym("MASS"),
+        "helicity_phi": sym("PHI"),
+        "helicity_theta": sym("THETA"),
+        "outgoing_state_mass1": sym("MASS1"),
+        "outgoing_state_mass2": sym("MASS2"),
+    }
+    names = {"MASS": "invariant mass symbol of decay.parent", "MASS1": "invariant mass symbol of decay.children[0]", "MASS2": "invariant mass symbol of decay.children[1]",
+             "PHI": "phi of decay.children[0]", "THETA": "theta of decay.children[0]"}
+
+    def same(got, w) -> bool:
+        try:
+            return got is not None and equal(te._rf(got), w)
+        except AnalysisError:
+            return False
+
+    problems = []
+    for roles, _ in sets:
+        for k, w in want.items():
+            if not same(roles.get(k), w):
+                msg = f"{k} = {roles.get(k)!r} (expected the {names[te.single_atom(w)]})"
+                if msg not in problems:
+                    problems.append(msg)
+    call = next((c for r in walk_function(fn.node) if isinstance(r, ast.Return) and r.value is not None for c in ast.walk(r.value) if isinstance(c, ast.Call)), fn.node)
+    ctx.verdict(not problems, "R-TERM", f"{fn.qual}::roles", tree.loc(call),
+                "variable set: incoming mass = invariant-mass symbol of decay.parent, angles = those of decay.children[0], daughter masses = invariant-mass symbols of children[0], children[1] of the same decay", problems or None)
+    g = tree.func(f"{HEL}::_generate_kinematic_variables")
+    gval = te.eval_function(g, [TRANSITION, NODE_ID])
+    gpaths = list(_paths(gval))
+    ok = bool(gpaths) and all(isinstance(v, Tup) and len(v.items) == 3 and all(same(x, sym(w)) for x, w in zip(v.items, ("MASS", "PHI", "THETA"))) for v, _ in gpaths)
+    gret = next((r for r in walk_function(g.node) if isinstance(r, ast.Return)), g.node)
+    ctx.verdict(ok, "R-TERM", f"{g.qual}::roles", tree.loc(gret), "(mass, phi, theta) = (invariant mass of decay.parent, angle symbols of decay.children[0])", None if ok else [repr(v)[:200] for v, _ in gpaths])
+    # angular momentum: on every path either the node's L, or the path is only taken when the node specifies none
+    lmag = vkey(te.ev(ast.parse("decay.interaction.l_magnitude", mode="eval").body, {"decay": decay_value(te, tree)}))
+    problems = []
+    n_own = 0
+    for roles, conds in sets:
+        if "angular_momentum" not in roles:
+            problems.append("angular_momentum is not passed")
+            continue
+        for lval, lconds in _paths(roles["angular_momentum"], conds):
+            if vkey(lval) == lmag:
+                n_own += 1
+                continue
+            if any(_holds_is_none(vkey(c), lmag) for c in lconds):
+                continue  # a fallback for a node without L
+            problems.append(f"a path passes {lval!r} although the transition specifies an L for the node (path conditions: {[repr(c)[:80] for c in lconds]})")
+    if not n_own:
+        problems.append("no path passes decay.interaction.l_magnitude")
     ctx.verdict(not problems, "R-TERM", f"{fn.qual}::angular-momentum", tree.loc(call),
                 "angular_momentum = L of that node whenever the transition specifies one (fallbacks only under `is None`)", problems or None)
 
@@ -149,8 +226,11 @@ def check_symbol_duplicates(ctx: Check, tree: Tree) -> None:
     for s in sites:
         if s["skeleton"] is not None:
             groups.setdefault(s["skeleton"], []).append(s)
-    if len(sites) < 6:
-        raise AnalysisError(f"only {len(sites)} symbol sites in dynamics/builder.py (6+ confirmed)")
+    # anchor: the three parameter symbols of a resonance (mass, width, meson radius) are constructed somewhere in
+    # the module.  HOW OFTEN is not an anchor: a module that builds each of them at one site has no duplicates
+    # that could disagree, which is the best case of this rule
+    if len(groups) < 3:
+        raise AnalysisError(f"only {len(groups)} distinct parameter symbols are constructed in dynamics/builder.py (mass, width, meson radius confirmed; {len(sites)} sites)")
     for skel, members in sorted(groups.items()):
         if len(members) < 2:
             continue
@@ -171,6 +251,99 @@ def check_symbol_duplicates(ctx: Check, tree: Tree) -> None:
             else:
                 idents.add(unparse(ph))
     ctx.verdict(len(idents) == 1, "R-DEFAULTS", f"{BLD}::identifier", BLD.replace(".", "/"), f"the resonance identifier is built the same way at every site: {sorted(idents)}")
+
+
+def _is_store_view(e: ast.AST) -> bool:
+    """`self.__choices`, `self.__choices.keys()`, `list(self.__choices)`, `tuple(...)`: all registered decays."""
+    while True:
+        if isinstance(e, ast.Call) and isinstance(e.func, ast.Name) and e.func.id in {"list", "tuple", "iter"} and len(e.args) == 1 and not e.keywords:
+            e = e.args[0]
+        elif isinstance(e, ast.Call) and isinstance(e.func, ast.Attribute) and e.func.attr == "keys" and not e.args and not e.keywords:
+            e = e.func.value
+        else:
+            break
+    return isinstance(e, ast.Attribute) and "__choices" in e.attr and isinstance(e.value, ast.Name) and e.value.id == "self"
+
+
+def _selection_by_name(fn: ast.FunctionDef) -> list[str]:
+    """assign[str]: the decays that get the builder are exactly {d in store : d.parent.particle.name == <name>}.
+    The selection may be spelled as a guarded store inside a loop over the store, with `continue` guards, or as
+    a filtered comprehension over the store that a second loop applies: the rule collects, for the one store
+    `store[d] = builder`, where d ranges (all registered decays) and every condition between the range and the
+    store, in whatever clause it is written."""
+    rd = RD(fn)
+    sel_param = fn.args.args[1].arg if len(fn.args.args) > 1 else None
+    stores = [n for n in ast.walk(fn) if isinstance(n, ast.Assign) and isinstance(n.targets[0], ast.Subscript) and "__choices" in unparse(n.targets[0].value)]
+    if len(stores) != 1:
+        return [f"{len(stores)} stores into the choices (one expected)"]
+    store = stores[0]
+    key = store.targets[0].slice
+    loop = next((a for a in ancestors(store) if isinstance(a, ast.For) and isinstance(a.target, ast.Name) and isinstance(key, ast.Name) and a.target.id == key.id), None)
+    if loop is None:
+        if any(isinstance(a, ast.For) for a in ancestors(store)):
+            return ["stores under a key other than the iterated decay"]
+        return ["does not iterate all registered decays"]
+    problems: list[str] = []
+    conds: list[tuple[ast.AST, bool, str]] = []  # (test, required outcome, name of the decay variable)
+    # conditions inside the loop: enclosing ifs, and `if c: continue` guards in front of the store
+    node = store
+    for a in ancestors(store):
+        if a is loop:
+            break
+        if isinstance(a, ast.If):
+            conds.append((a.test, any(node is b or any(node is x for x in ast.walk(b)) for b in a.body), loop.target.id))
+        elif isinstance(a, (ast.For, ast.While)):
+            problems.append("the store sits in a nested loop")
+        node = a
+    for st in loop.body:
+        if st is node:
+            break
+        if isinstance(st, ast.If) and st.body and all(isinstance(b, ast.Continue) for b in st.body) and not st.orelse:
+            conds.append((st.test, False, loop.target.id))
+    # the range of the loop: the store itself, or a local holding a filtered comprehension over the store
+    it = loop.iter
+    if not _is_store_view(it):
+        src = None
+        if isinstance(it, ast.Name):
+            defs = list(rd.reaching(it))
+            if len(defs) == 1 and defs[0].kind == "assign" and defs[0].index is None and defs[0].value is not None:
+                src = defs[0].value
+        elif isinstance(it, (ast.ListComp, ast.GeneratorExp)):
+            src = it
+        while isinstance(src, ast.Call) and isinstance(src.func, ast.Name) and src.func.id in {"list", "tuple"} and len(src.args) == 1 and not src.keywords:
+            src = src.args[0]
+        if (isinstance(src, (ast.ListComp, ast.GeneratorExp)) and len(src.generators) == 1 and isinstance(src.generators[0].target, ast.Name)
+                and isinstance(src.elt, ast.Name) and src.elt.id == src.generators[0].target.id and _is_store_view(src.generators[0].iter)):
+            conds += [(c, True, src.generators[0].target.id) for c in src.generators[0].ifs]
+        else:
+            problems.append("does not iterate all registered decays")
+    if any(isinstance(n, (ast.Break, ast.Return)) for n in ast.walk(loop)):
+        problems.append("stops at the first match (other chains with the same resonance keep their old builder)")
+    if not conds:
+        problems.append("no name comparison")
+    n_name = 0
+    for test, outcome, var in conds:
+        t, out = test, outcome
+        while isinstance(t, ast.UnaryOp) and isinstance(t.op, ast.Not):
+            t, out = t.operand, not out
+        sides = []
+        if isinstance(t, ast.Compare) and len(t.ops) == 1 and isinstance(t.ops[0], (ast.Eq, ast.NotEq)) and isinstance(t.ops[0], ast.Eq) == out:
+            for side in (t.left, t.comparators[0]):
+                txt = unparse(side)
+                for d in rd.closure(rd.uses(side)):
+                    if d.value is not None:
+                        txt += " <- " + unparse(d.value)
+                sides.append(txt)
+        joined = " | ".join(sides)
+        if f"{var}.children" in joined:
+            problems.append("selection looks at the children")
+        if f"{var}.parent.particle" in joined and ".name" in joined and (sel_param is None or any(sel_param in s_ and f"{var}.parent" not in s_ for s_ in sides)):
+            n_name += 1
+        else:
+            problems.append(f"condition `{unparse(test)}` ({'must hold' if outcome else 'must not hold'}): selection is not by the parent particle's name alone")
+    if conds and not n_name and not any("selection is not by" in p_ for p_ in problems):
+        problems.append("no name comparison")
+    return problems
 
 
 def check_dispatch(ctx: Check, tree: Tree) -> None:
@@ -217,38 +390,7 @@ def check_dispatch(ctx: Check, tree: Tree) -> None:
     # by name: compares the parent particle's name, iterates all keys, stores under the iterated key
     fn = impls.get("str")
     if fn is not None:
-        loops = [n for n in ast.walk(fn) if isinstance(n, ast.For)]
-        problems = []
-        if len(loops) != 1 or "__choices" not in unparse(loops[0].iter):
-            problems.append("does not iterate all registered decays")
-        else:
-            loop = loops[0]
-            var = unparse(loop.target)
-            lrd = RD(fn)
-            tests = [n for n in ast.walk(loop) if isinstance(n, ast.If)]
-            if not tests:
-                problems.append("no name comparison")
-            else:
-                t = tests[0]
-                cmp_ = t.test
-                sides = []
-                if isinstance(cmp_, ast.Compare) and len(cmp_.ops) == 1 and isinstance(cmp_.ops[0], ast.Eq):
-                    for side in (cmp_.left, cmp_.comparators[0]):
-                        txt = unparse(side)
-                        for d in lrd.closure(lrd.uses(side)):
-                            if d.value is not None:
-                                txt += " <- " + unparse(d.value)
-                        sides.append(txt)
-                joined = " | ".join(sides)
-                if not (f"{var}.parent.particle" in joined and ".name" in joined):
-                    problems.append(f"compares `{unparse(cmp_)}`: selection is not by the parent particle's name")
-                if f"{var}.children" in joined:
-                    problems.append("selection looks at the children")
-                st = [n for n in ast.walk(t) if isinstance(n, ast.Assign) and isinstance(n.targets[0], ast.Subscript)]
-                if not st or unparse(st[0].targets[0].slice) != var:
-                    problems.append("stores under a key other than the iterated decay")
-            if any(isinstance(n, (ast.Break, ast.Return)) for n in ast.walk(loop)):
-                problems.append("stops at the first match (other chains with the same resonance keep their old builder)")
+        problems = _selection_by_name(fn)
         ctx.verdict(not problems, "R-DISPATCH", f"{cls.qual}.assign[str]::by-parent-name", tree.loc(fn), "assign[str]: every decay whose parent particle has that name gets the builder", problems or None)
     fn = impls.get("Particle")
     if fn is not None:
